@@ -162,6 +162,11 @@ pub fn step(line: &str, scratch: &PathBuf) -> (String, String) {
         host: "127.0.0.1".into(),
         hhost: None,
     };
+    // emit=<path>: also leave the file where the check can start the real server binary on it
+    if let Some(out) = get("emit") {
+        let text = if via == "yaml" { yaml_of(&r) } else { toml_of(&r) };
+        let _ = std::fs::write(&out, text);
+    }
     let res = match via.as_str() {
         "toml" => {
             let p = scratch.join("cfg.toml");
